@@ -8,7 +8,7 @@ _ASSUME = ['UBSan alignment and vptr checks are off; generated schema code is co
 
 
 def _p(sc, q, t):
-    return dict(name=sc, harness='c06_data', variant='san', hang_s=300,    # real hangs are caught by the harness' own CPU-time watchdog (2 s per case)
+    return dict(name=sc, harness='c06_data', variant='san', hang_s=1200,    # real hangs are caught by the harness' own CPU-time watchdog (2 s per case)
 
                 quick=dict(args=['schema=' + sc] + q, deadline=150), thorough=dict(args=['schema=' + sc] + t, deadline=420))
 
